@@ -797,16 +797,37 @@ def case_mcmc(args, real=False, skip=(), first=True):
     return roundtrip(a, b, real, skip, first)
 
 
+def _untraced_torch_load():
+    """torch.optim.Optimizer.load_state_dict (torch's own code, not torchtree's) keys dicts by tensors; CrossHair's
+    symbolic-aware dict/set compare keys with ==, which is ambiguous for tensors.  It is therefore executed with
+    the opcode tracer switched off; everything handed to it is concrete (torchtree's Optimizer.load_state_dict,
+    which prepares that argument, stays traced)."""
+    orig = torch.optim.Optimizer.load_state_dict
+    if getattr(orig, '_c17_untraced', False):
+        return
+
+    def load_state_dict(self, state_dict):
+        with untraced():
+            return orig(self, state_dict)
+
+    load_state_dict._c17_untraced = True
+    torch.optim.Optimizer.load_state_dict = load_state_dict
+
+
+_untraced_torch_load()
+
+
 def case_optimizer(algo, args, real=False, skip=(), first=True):
-    epoch, sched, warm, conv, lr, last_epoch, step_count = args
+    epoch, sched, warm, conv, f, last_epoch, step_count = args
     a, b = mk_optimizer(algo, sched, warm, conv), mk_optimizer(algo, sched, 0, conv)
     a._epoch = epoch
-    a.optimizer.param_groups[0]['lr'] = lr
+    a.optimizer.param_groups[0]['lr'] = 0.046875  # concrete: it is read by torch's own load_state_dict (untraced)
     if a.scheduler is not None:
         a.scheduler.scheduler.last_epoch = last_epoch
         a.scheduler.scheduler._step_count = step_count
+        a.scheduler.scheduler._last_lr = [f, 0.25]  # symbolic float in the scheduler state
     if a.convergence is not None:
-        a.convergence.elbo = lr + 1.0
+        a.convergence.elbo = f + 1.0
         a.convergence.elbo_diff.append(0.125)
     return roundtrip(a, b, real, skip, first, extra_items=_optimizer_items)
 
